@@ -843,6 +843,68 @@ example : (mergeMapped (⟨[10, 11, 12, 13], [[0, 1, 2, 3]]⟩ : Mapped Nat) ⟨
     (mergeMapped (⟨[10, 11, 12, 13], [[0, 1, 2, 3]]⟩ : Mapped Nat) ⟨[11, 14, 15, 12], [[0, 1, 2, 3]]⟩ 0).quads =
       [[0, 1, 2, 3], [1, 4, 5, 2]] := by decide
 
+
+/-! ### round 6f — `WrappedDisk`: what `shell` is, for every placement -/
+
+section wrapped
+open CBV.C11 (P3 wrappedPts)
+
+/-- the combinatorial half on the `quad_map` regenerated from the source: `shell` (the source's `grid[-1]`) is the set of faces with a
+    side between two of the four outer positions (index ≥ 8), `core` is the inner square, and the four faces of the ring between
+    square and circle are in neither list (the known finding) although none of them has such a side -/
+def wrappedEdgeOk : Bool :=
+  match lookup "WrappedDisk" CBV.Gen.c19QuadMaps, sketchFromSource "WrappedDisk" with
+  | some quads, some s =>
+      s.shell == shellByEdges (fun i => decide (8 ≤ i)) quads && s.n == quads.length &&
+      quads.all (fun q => (List.range 4).all (fun j => decide (q.getD j 0 < 12))) &&
+      s.core == [0] && s.shell == [5, 6, 7, 8] &&
+      [1, 2, 3, 4].all (fun f => !s.core.contains f && !s.shell.contains f && !edgeOn (fun i => decide (8 ≤ i)) (quads.getD f []))
+  | _, _ => false
+
+theorem T_C19_wrapped_edges_table : wrappedEdgeOk = true := by decide +kernel
+
+/-- **WrappedDisk in ANY placement** (centre `c`, corner point ≠ centre, unit normal perpendicular to centre → corner, any ordered
+    field, `0 < diagonal_ratio < 1`, the circle inside the square: `0 < radius / |corner − centre| < 1`): a face is in `shell` iff it
+    has a side both ends of which are at the distance of the corner point from the centre — the four corners of the square, so
+    such a side is a side of the square: `shell` is exactly the set of faces on the outer boundary. (`core ++ shell` is still not
+    all faces: the ring between square and circle is in neither list — `T_C19_wrapped_counterexample`, `T_C19_wrapped_edges_table`.) -/
+theorem T_C19_wrapped_shell_iff_boundary_edge {K : Type} [Field K] [LinearOrder K] [IsStrictOrderedRing K]
+    (c corner u : P3 K) (h dg radius wn : K) (hd0 : 0 < dg) (hd1 : dg < 1) (hr0 : 0 < radius / wn) (hr1 : radius / wn < 1)
+    (hu : P3.nsq u = 1) (hp : P3.dot u (P3.sub corner c) = 0) (hr : 0 < P3.nsq (P3.sub corner c))
+    (quads : List (List Nat)) (s : SketchIdx)
+    (hq : lookup "WrappedDisk" CBV.Gen.c19QuadMaps = some quads) (hs : sketchFromSource "WrappedDisk" = some s)
+    (f : Nat) (hf : f < s.n) :
+    f ∈ s.shell ↔
+      ∃ j, j < 4 ∧
+        P3.nsq (P3.sub ((wrappedPts c corner u h dg radius wn).getD ((quads.getD f []).getD j 0) c) c)
+          = P3.nsq (P3.sub corner c) ∧
+        P3.nsq (P3.sub ((wrappedPts c corner u h dg radius wn).getD ((quads.getD f []).getD ((j + 1) % 4) 0) c) c)
+          = P3.nsq (P3.sub corner c) := by
+  have hT := T_C19_wrapped_edges_table
+  simp only [wrappedEdgeOk, hq, hs, Bool.and_eq_true, beq_iff_eq, List.all_eq_true, List.mem_range, decide_eq_true_eq] at hT
+  obtain ⟨⟨⟨⟨⟨hshell, hn⟩, hidx⟩, _⟩, _⟩, _⟩ := hT
+  have hfl : f < quads.length := hn ▸ hf
+  have hmem : quads.getD f [] ∈ quads := by
+    rw [List.getD_eq_getElem?_getD, List.getElem?_eq_getElem hfl]
+    exact List.getElem_mem hfl
+  rw [hshell]
+  simp only [shellByEdges, List.mem_filter, List.mem_range]
+  rw [edgeOn_iff (fun i => P3.nsq (P3.sub ((wrappedPts c corner u h dg radius wn).getD i c) c) = P3.nsq (P3.sub corner c))
+    (fun i => decide (8 ≤ i)) 12
+    (fun i hi => by
+      rw [wrapped_onCorner_iff c corner u h dg radius wn hd0 hd1 hr0 hr1 hu hp hr i hi]
+      simp)
+    (quads.getD f []) (fun j hj => hidx _ hmem j hj)]
+  exact ⟨fun h => h.2, fun h => ⟨hfl, h⟩⟩
+
+/-- non-vacuity (ℚ suffices here: no `h` is needed for the quarter turns): centre (1, 2, 3), corner (3, 2, 3), normal (0, 0, 1),
+    `diagonal_ratio` 9/10, radius 1 of a half diagonal 2 -/
+example : (0 : Rat) < 9 / 10 ∧ (9 / 10 : Rat) < 1 ∧ (0 : Rat) < 1 / 2 ∧ (1 / 2 : Rat) < 1 ∧ P3.nsq (⟨0, 0, 1⟩ : P3 Rat) = 1 ∧
+    P3.dot (⟨0, 0, 1⟩ : P3 Rat) (P3.sub ⟨3, 2, 3⟩ ⟨1, 2, 3⟩) = 0 ∧ 0 < P3.nsq (P3.sub (⟨3, 2, 3⟩ : P3 Rat) ⟨1, 2, 3⟩) ∧
+    (sketchFromSource "WrappedDisk").map (·.shell) = some [5, 6, 7, 8] := by decide +kernel
+
+end wrapped
+
 /-! ### round sketches and shapes: `decide` on the tables generated from the current source -/
 
 /-! ### beyond the probe instances -/
